@@ -227,6 +227,14 @@ Proof.
   rewrite blit_blit_adjacent; [reflexivity|]. rewrite lenN_cons, lenN_nil. lia.
 Qed.
 
+Lemma takeN_add {A} a k (l : list A) : takeN (a + k) l = takeN a l ++ takeN k (dropN a l).
+Proof.
+  rewrite <- (takeN_dropN a l) at 1.
+  destruct (N.le_gt_cases (lenN l) a) as [H|H].
+  - rewrite (dropN_all a l H), app_nil_r, takeN_nil, app_nil_r. rewrite takeN_takeN. f_equal. lia.
+  - rewrite takeN_app_ge by (rewrite lenN_takeN; lia). rewrite lenN_takeN. do 2 f_equal. lia.
+Qed.
+
 (* ---- cstr and NUL-freeness *)
 Definition nulfree (l : list N) : Prop := Forall (fun x => x <> 0) l.
 
